@@ -1151,16 +1151,16 @@ End Uniq.
 
 Theorem uniq_nokey_spec left :
   exists ys, uniq_nokey left = Ok (FList ys) /\
-    ForallOrdPairs (fun a b => py_eq a b = false) ys /\
+    ForallOrdPairs (fun a b => liq_eq a b = false) ys /\
     (forall x, In x ys -> In x (sequence_arg left)) /\
-    uniq_nokey (FList ys) = Ok (FList (uniq_by py_eq [] (sequence_arg (FList ys)))).
+    uniq_nokey (FList ys) = Ok (FList (uniq_by liq_eq [] (sequence_arg (FList ys)))).
 Proof.
   eexists. split; [reflexivity|]. split; [apply uniq_by_distinct|]. split; [|reflexivity].
   intros x. apply uniq_by_incl.
 Qed.
 
 (** On a flat array [uniq] is idempotent. *)
-Lemma uniq_by_flat l : flat_list l -> flat_list (uniq_by py_eq [] l).
+Lemma uniq_by_flat l : flat_list l -> flat_list (uniq_by liq_eq [] l).
 Proof.
   unfold flat_list. rewrite !Forall_forall. intros H x Hx. apply H. eapply uniq_by_incl, Hx.
 Qed.
@@ -1176,8 +1176,8 @@ Qed.
 (** When Python's [==] is reflexive on the items (it is, for the values a
     template sees), pairwise distinct gives [NoDup]. *)
 Lemma distinct_NoDup l :
-  (forall x, In x l -> py_eq x x = true) ->
-  ForallOrdPairs (fun a b => py_eq a b = false) l -> NoDup l.
+  (forall x, In x l -> liq_eq x x = true) ->
+  ForallOrdPairs (fun a b => liq_eq a b = false) l -> NoDup l.
 Proof.
   intros R. induction 1 as [|a l Ha Hl IH]; constructor.
   - intro Hin. rewrite Forall_forall in Ha. specialize (Ha a Hin).
@@ -1186,7 +1186,7 @@ Proof.
 Qed.
 
 Theorem uniq_nokey_NoDup left ys :
-  (forall x, In x (sequence_arg left) -> py_eq x x = true) ->
+  (forall x, In x (sequence_arg left) -> liq_eq x x = true) ->
   uniq_nokey left = Ok (FList ys) -> NoDup ys.
 Proof.
   intros R H. unfold uniq_nokey in H. inversion H; subst. apply distinct_NoDup.
@@ -1229,6 +1229,18 @@ Proof.
       * constructor; [exact E|]. eapply Forall_impl; [|exact H4]. intros p Hp. cbv beta in Hp.
         rewrite existsb_app in Hp. apply orb_false_iff in Hp. tauto.
 Qed.
+
+Lemma liq_eq_refl_scalar v : is_scalar_val v = true -> liq_eq v v = true.
+Proof.
+  intro H. destruct v; try discriminate; try (apply (py_eq_refl_scalar _ H)).
+  simpl. destruct b; reflexivity.
+Qed.
+
+(** A boolean only duplicates a boolean. *)
+Example uniq_bool_int :
+  uniq_nokey (FList [FInt 1; FBool true; FInt 0; FBool false; FDec 10 (-1); FBool true])
+  = Ok (FList [FInt 1; FBool true; FInt 0; FBool false]).
+Proof. vm_compute. reflexivity. Qed.
 
 (** * 10. compact *)
 
@@ -1334,7 +1346,8 @@ Proof.
   rewrite !Z.min_l by lia. rewrite !Z.max_l by lia.
   destruct ((s <? 0) && (0 <=? s + n)) eqn:E.
   { apply andb_true_iff in E as [E _]. apply Z.ltb_lt in E. lia. }
-  f_equal. f_equal. unfold py_slice.
+  f_equal. f_equal. unfold slice_seq.
+  destruct (s <? - Z.of_nat (length l)) eqn:E0; [apply Z.ltb_lt in E0; lia|]. unfold py_slice.
   destruct (s <? 0) eqn:E1; [apply Z.ltb_lt in E1; lia|].
   destruct (s + n <? 0) eqn:E2; [apply Z.ltb_lt in E2; lia|].
   set (len := Z.of_nat (length l)).
@@ -1360,13 +1373,24 @@ Proof.
   rewrite !Z.min_l by lia. rewrite !Z.max_l by lia.
   destruct ((s <? 0) && (0 <=? s + n)) eqn:E.
   { apply andb_true_iff in E as [_ E]. apply Z.leb_le in E. lia. }
-  f_equal. f_equal. unfold py_slice.
+  f_equal. f_equal. unfold slice_seq.
+  destruct (s <? - Z.of_nat (length l)) eqn:E0; [apply Z.ltb_lt in E0; lia|]. unfold py_slice.
   destruct (s <? 0) eqn:E1; [|apply Z.ltb_ge in E1; lia].
   destruct (s + n <? 0) eqn:E2; [|apply Z.ltb_ge in E2; lia].
   set (len := Z.of_nat (length l)) in *.
   rewrite !Z.max_l by lia.
   replace (s + n + len - (s + len)) with n by lia. replace (s + len) with (len + s) by lia.
   reflexivity.
+Qed.
+
+(** A start before the beginning is out of range: the empty array. *)
+Theorem slice_array_out_of_range l s n :
+  - 2 ^ 63 <= s < - Z.of_nat (length l) -> - 2 ^ 63 <= n <= 2 ^ 63 - 1 ->
+  slice_f (FList l) (FInt s) (Some (FInt n)) = Ok (FList []).
+Proof.
+  intros Hs Hn. unfold slice_f, slice_arg, MAX_SLICE_ARG, MIN_SLICE_ARG. simpl bind.
+  rewrite !Z.min_l by lia. rewrite !Z.max_l by lia. unfold slice_seq.
+  destruct (s <? - Z.of_nat (length l)) eqn:E0; [reflexivity|apply Z.ltb_ge in E0; lia].
 Qed.
 
 (** * 12. split / join *)
@@ -1609,7 +1633,7 @@ Proof. vm_compute. repeat split. Qed.
 
 Example uniq_example :
   uniq_nokey (FList [FInt 1; FStr [97%N]; FBool true; FDec 10 (-1); FStr [97%N]; FNil; FInt 2])
-  = Ok (FList [FInt 1; FStr [97%N]; FNil; FInt 2]).
+  = Ok (FList [FInt 1; FStr [97%N]; FBool true; FNil; FInt 2]).
 Proof. vm_compute. reflexivity. Qed.
 
 Example split_join_example :
